@@ -7,6 +7,7 @@ import (
 	"regexp"
 	"strings"
 
+	abci "github.com/cometbft/cometbft/abci/types"
 	cmtproto "github.com/cometbft/cometbft/proto/tendermint/types"
 	sdk "github.com/cosmos/cosmos-sdk/types"
 
@@ -41,6 +42,15 @@ type Exporter struct {
 	engine.Base
 	cfg  ExporterConfig
 	done int
+	// followers: chains started from an as-is export through InitChain, fed the primary's
+	// next blocks: begin/end block of every module must keep working on the imported state
+	followers []*follower
+}
+
+type follower struct {
+	n    *engine.Node
+	left int
+	from int64
 }
 
 func NewExporter() *Exporter { return &Exporter{} }
@@ -73,6 +83,36 @@ func (m *Exporter) Final(w *engine.World) {
 		return
 	}
 	m.roundTrip(w, false, "final")
+}
+
+// OnBlock feeds the primary's block to the chains that were started from an export.
+func (m *Exporter) OnBlock(w *engine.World, blk *engine.Block, res *abci.ResponseFinalizeBlock) {
+	var keep []*follower
+	for _, f := range m.followers {
+		if blk.Height != f.n.Height+1 {
+			if blk.Height <= f.n.Height {
+				keep = append(keep, f) // the export's own block
+			}
+			continue
+		}
+		_, err := f.n.Exec(blk)
+		if err == nil {
+			err = f.n.Commit(blk)
+		}
+		w.Hit("C12.continuation_blocks")
+		if err != nil {
+			if p, ok := err.(*engine.Panic); ok && p.Module() != "" {
+				w.Violate("C12", "continuation-panic/"+p.Module()+"/"+engine.PanicSite(p.Stack),
+					"a chain started from the as-is export of height %d halts %d blocks later (height %d) in module %s: %s", f.from, blk.Height-f.from, blk.Height, p.Module(), p.Value)
+			}
+			continue
+		}
+		f.left--
+		if f.left > 0 {
+			keep = append(keep, f)
+		}
+	}
+	m.followers = keep
 }
 
 func (m *Exporter) OnFault(w *engine.World, f engine.Fault) {
@@ -227,6 +267,9 @@ func (m *Exporter) roundTripFrom(w *engine.World, prep bool, when string, servic
 		return
 	}
 	w.Hit("C12.imports_accepted")
+	if !prep && when == "mid" && len(m.followers) < 3 {
+		m.followers = append(m.followers, &follower{n: abciNode, left: 25, from: h})
+	}
 
 	// (2) the same import written straight into a second fresh application's store, so that
 	// the imported state can be exported again and queried without executing a block
